@@ -67,7 +67,7 @@ class Check(CheckBase):
     def generate(self):
         quick = self.tier == 'quick'
         cases = []
-        kinds = ['s3c', 'b2', 's3'] + [f'local:{s}' for s in SPELLINGS]
+        kinds = ['s3c', 'b2', 's3', 'b2', 's3c', 'b2'] + [f'local:{s}' for s in SPELLINGS]
         n = 156 if quick else 1800
         for i in range(n):
             r = random.Random(f'C13/{self.seed}/{i}')
@@ -219,6 +219,9 @@ class Check(CheckBase):
                 data = r.randbytes(r.choice([0, 1, c - 1, c, c + 1, 3 * c + 1])) if r.random() < 0.8 else bytes([65 + step % 26]) * r.randint(1, 40)
                 classes.add(f'{bk}|{op}|{cls}')
                 try:
+                    if op in ('upload', 'upload_stream') and name in model and r.random() < 0.35:
+                        # overwrite with DIFFERENT bytes of exactly the same length
+                        data = bytes(b ^ 0xA5 for b in model[name]) or b''
                     if op == 'upload':
                         await call(backend.upload, name, data)
                         model[name] = data
@@ -244,7 +247,14 @@ class Check(CheckBase):
                                 viol(f'{op} of a live object failed: {type(e).__name__}: {str(e)[:120]}',
                                      _name_mechanism(bk, name, op), name=name)
                     elif op == 'exists':
-                        probe = name if r.random() < 0.7 else name + r.choice(['x', '/y', ' '])
+                        # the name itself, a longer name, or a PROPER PREFIX of a live name (a directory, a cut segment)
+                        # the name itself, a longer name, or a proper prefix that cuts a SEGMENT (whole-segment prefixes are
+                        # directories: "no name is a directory prefix of another" keeps them out of the property)
+                        cuts = [name[:k] for k in (len(name) - 1, max(1, len(name) // 2), max(1, len(name) - 2))
+                                if 0 < k < len(name) and name[k] != '/' and not name[:k].endswith('/')
+                                and name[:k].rsplit('/', 1)[-1] not in ('.', '..')
+                                and not any(nm.startswith(name[:k] + '/') for nm, _ in names)]
+                        probe = r.choice([name, name, name, name + r.choice(['x', '/y', ' '])] + cuts)
                         got = await call(backend.exists, probe)
                         counters['returns_compared'] += 1
                         if bool(got) != (probe in model):
